@@ -725,7 +725,8 @@ class C16(PropBase):
                         at = [len(join(head4)), len(join(head4 + rec + fill + rest4))]
                     b = join(ls)
                     allnl = [i + 1 for i in range(len(b)) if b[i:i + 1] == b"\n"]
-                    variants = [at, [x for x in allnl if x <= at[-1]], at + [at[-1] + rng.range(1, ln - 1)], at + [x for x in allnl if x > at[-1]][:1]]
+                    # (at most 16 consecutive aligned pieces: the model's event-list glue is quadratic in the number of chunks)
+                    variants = [at, [x for x in allnl if x <= at[-1]][-16:], at + [at[-1] + rng.range(1, ln - 1)], at + [x for x in allnl if x > at[-1]][:1]]
                     for v in ([variants[0], rng.choice(variants[1:])] if not thorough else variants):
                         add("aligned_pieces", case(0, [srv(framing="K" + ",".join(map(str, sorted(set(v)))), body=b)]))
                     if rep == 0 and kind in ("PUBLIC", "INFO"):
